@@ -113,3 +113,53 @@ pub fn c09__length_mismatch_rejected() {
     kani::cover!(true, "VERIF-COVER");
     core::mem::forget((ch, v));
 }
+
+//@ harness=c09__degree_not_power_of_two_rejected tier=quick kind=prove cap=900 :: declared bound 5 (degree + 1 not a power of two; domain 16, 0 layers): a committed remainder with 7 or 8 coefficients (degree above the bound) is rejected although it fits the next power of two
+#[kani::proof]
+#[kani::unwind(18)]
+#[kani::stub(alloc::fmt::format, no_fmt)]
+pub fn c09__degree_not_power_of_two_rejected() {
+    ih_reset();
+    let rem: [F17; 8] = kani::any();
+    let n: usize = kani::any();
+    kani::assume(n == 7 || n == 8);
+    let mut ch = Ch::<GV> { commitments: vec![H::hash_elements(&rem[..n])], layer_queries: Vec::new(), remainder: rem[..n].to_vec(), num_partitions: 1, _v: PhantomData };
+    let mut coin = Coin { alphas: [kani::any(), kani::any()], next: 0 };
+    // max_poly_degree 5, blowup 2, remainder degree option 7  =>  domain 16, no FRI layers
+    let v = Verifier::new(&mut ch, &mut coin, FriOptions::new(2, 2, 7), 5).unwrap();
+    let pos: usize = kani::any();
+    kani::assume(pos < 16);
+    // evaluation consistent with the revealed remainder at the queried point: x = 3 * 3^pos
+    let mut x = F17(3);
+    let mut i = 0;
+    while i < pos {
+        x = x * F17(3);
+        i += 1;
+    }
+    let eval = eval_rev(&rem[..n], x);
+    let res = v.verify(&mut ch, &[eval], &[pos]);
+    assert!(res.is_err());
+    kani::cover!(n == 8 && rem[0] != F17(0), "VERIF-COVER");
+    core::mem::forget((ch, v));
+}
+
+//@ harness=c09__missing_remainder_commitment_rejected tier=quick kind=prove cap=900 :: a proof that sends no commitment for the remainder (0-layer FRI with an empty commitment list) is rejected for every remainder, even when the evaluation agrees with it
+#[kani::proof]
+#[kani::unwind(10)]
+#[kani::stub(alloc::fmt::format, no_fmt)]
+pub fn c09__missing_remainder_commitment_rejected() {
+    ih_reset();
+    let rem: [F17; 4] = kani::any();
+    let mut ch = Ch::<GV> { commitments: Vec::new(), layer_queries: Vec::new(), remainder: rem.to_vec(), num_partitions: 1, _v: PhantomData };
+    let v = zero_layer_verifier(&mut ch);
+    if let Ok(v) = v {
+        let pos: usize = kani::any();
+        kani::assume(pos < 8);
+        let eval = eval_rev(&rem, domain8(pos));
+        let res = v.verify(&mut ch, &[eval], &[pos]);
+        assert!(res.is_err());
+        core::mem::forget(v);
+    }
+    kani::cover!(true, "VERIF-COVER");
+    core::mem::forget(ch);
+}
